@@ -17,9 +17,9 @@ so every proof is re-checked against what the code says now.
 import os
 import re
 
-REPO = os.environ.get("VERIF_REPO", "/repo")
+REPO = os.path.realpath(os.environ.get("VERIF_REPO", "/repo"))
 ROOT = os.path.dirname(os.path.dirname(os.path.abspath(__file__)))
-GEN = os.path.join(ROOT, "coq", "generated")
+GEN = os.path.join(ROOT, "coq", "generated")   # overridden by vlib for alternate trees
 
 
 class TranslateError(Exception):
@@ -233,57 +233,22 @@ def K(name, file, anchor, atoms, args, group, props, flags=re.S, pick=0):
                 flags=flags, pick=pick)
 
 
-KERNELS = [
-    # ---- include/nano/core/numeric.h ----------------------------------------------------------
-    K("src_idiv", "include/nano/core/numeric.h",
-      r"tnominator\s+idiv\s*\([^)]*\)\s*(?:noexcept)?\s*\{\s*return\s+(.*?);\s*\}",
-      [(CAST + r"\((\w+)\)", r"\1"), (r"static_cast<\w+>\((\w+)\)", r"\1")],
-      [("nominator", "Z"), ("denominator", "Z")], "numeric", ["C12", "C16", "C17", "C09"]),
-    # ---- include/nano/tensor/dims.h -----------------------------------------------------------
-    K("src_product_step", "include/nano/tensor/dims.h",
-      r"tensor_size_t\s+product\s*\(const tensor_dims_t<trank>&\s*dims\)\s*\{.*?else\s*\{\s*return\s+(.*?);",
-      [(r"std::get<idim>\(dims\)", "dim"), (r"product<idim \+ 1, trank>\(dims\)", "rest")],
-      [("dim", "Z"), ("rest", "Z")], "dims", ["C16"]),
-    K("src_product_base", "include/nano/tensor/dims.h",
-      r"tensor_size_t\s+product\s*\(const tensor_dims_t<trank>&\s*dims\)\s*\{\s*if constexpr \(idim == trank\)\s*\{\s*return\s+(.*?);",
-      [], [], "dims", ["C16"]),
-    K("src_get_index_step", "include/nano/tensor/dims.h",
-      r"tensor_size_t\s+get_index\s*\(const tensor_dims_t<trank>&\s*dims,\s*tensor_size_t index,\s*tindices\.\.\.\s*indices\)\s*\{.*?return\s+(.*?);",
-      [(r"product<idim \+ 1>\(dims\)", "prod"), (r"get_index<idim \+ 1>\(dims, indices\.\.\.\)", "rest")],
-      [("index", "Z"), ("prod", "Z"), ("rest", "Z")], "dims", ["C16"]),
-    K("src_get_index_last", "include/nano/tensor/dims.h",
-      r"tensor_size_t\s+get_index\s*\(const tensor_dims_t<trank>&,\s*tensor_size_t index\)\s*\{\s*return\s+(.*?);",
-      [], [("index", "Z")], "dims", ["C16"]),
-    K("src_get_index0_step", "include/nano/tensor/dims.h",
-      r"tensor_size_t\s+get_index0\s*\(const tensor_dims_t<trank>&\s*dims,\s*tensor_size_t index,\s*tindices\.\.\.\s*indices\)\s*\{.*?return\s+(.*?);",
-      [(r"product<idim \+ 1>\(dims\)", "prod"), (r"get_index0<idim \+ 1>\(dims, indices\.\.\.\)", "rest")],
-      [("index", "Z"), ("prod", "Z"), ("rest", "Z")], "dims", ["C16"]),
-    K("src_get_index0_base", "include/nano/tensor/dims.h",
-      r"tensor_size_t\s+get_index0\s*\(const tensor_dims_t<trank>&\)\s*\{\s*return\s+(.*?);",
-      [], [], "dims", ["C16"]),
-    K("src_index_valid", "include/nano/tensor/dims.h",
-      r"tensor_size_t\s+get_index\s*\(const tensor_dims_t<trank>&\s*dims,\s*tensor_size_t index,\s*tindices\.\.\.\s*indices\)\s*\{\s*assert\((.*?)\);",
-      [(r"std::get<idim>\(dims\)", "dim")],
-      [("index", "Z"), ("dim", "Z")], "dims", ["C16"]),
-    # ---- include/nano/tensor/tensor.h ---------------------------------------------------------
-    K("src_reshape_infer", "include/nano/tensor/tensor.h",
-      r"auto treshape\(.*?if \(dim == -1\)\s*\{\s*dim\s*=\s*(.*?);",
-      [(r"::nano::size\(dimensions\)", "prod"), (r"size\(\)", "total")],
-      [("total", "Z"), ("prod", "Z")], "tensor", ["C16"]),
-    K("src_reshape_dim_ok", "include/nano/tensor/tensor.h",
-      r"auto treshape\(.*?for \(auto& dim : dimensions\)\s*\{\s*assert\((.*?)\);",
-      [], [("dim", "Z")], "tensor", ["C16"]),
-    K("src_slice_valid", "include/nano/tensor/tensor.h",
-      r"auto tslice\(.*?assert\((.*?)\);",
-      [(r"this->template size<0>\(\)", "size0")],
-      [("begin", "Z"), ("end_", "Z"), ("size0", "Z")], "tensor", ["C16"]),
-    K("src_slice_dim0", "include/nano/tensor/tensor.h",
-      r"auto tslice\(.*?dimensions\[0\]\s*=\s*(.*?);",
-      [], [("begin", "Z"), ("end_", "Z")], "tensor", ["C16"]),
-    K("src_elem_valid", "include/nano/tensor/tensor.h",
-      r"tbase::tconstref operator\(\)\(const tensor_size_t index\) const\s*\{\s*assert\(data\(\) != nullptr\);\s*assert\((.*?)\);",
-      [(r"size\(\)", "total")], [("index", "Z"), ("total", "Z")], "tensor", ["C16"]),
-]
+KERNELS = []
+
+
+def load_kernels():
+    """kernel tables live in tools/kernels/<name>.py (one file per property group, to keep edits apart);
+    each defines KERNELS = [K(...), ...] using K and CAST from this module"""
+    import glob
+    import importlib.util
+    KERNELS.clear()
+    for f in sorted(glob.glob(os.path.join(ROOT, "tools", "kernels", "*.py"))):
+        spec = importlib.util.spec_from_file_location("kernels_" + os.path.basename(f)[:-3], f)
+        mod = importlib.util.module_from_spec(spec)
+        mod.K, mod.CAST = K, CAST
+        spec.loader.exec_module(mod)
+        KERNELS.extend(mod.KERNELS)
+
 
 RENAME = {"end": "end_"}
 
@@ -323,6 +288,13 @@ def translate_kernel(k):
 
 def run(pid=None):
     """regenerate every group touched by property pid (all groups if None); returns kernel names"""
+    global GEN
+    try:
+        import vlib
+        GEN = os.path.join(vlib.COQ, "generated")
+    except ImportError:
+        pass
+    load_kernels()
     groups = {}
     for k in KERNELS:
         groups.setdefault(k["group"], []).append(k)
